@@ -27,6 +27,11 @@ from typing import Any, Callable, Dict, Iterable, List, Optional
 VERIF = Path(__file__).resolve().parent.parent
 EVIDENCE_DIR = VERIF / 'evidence'
 REPLAY_DIR = VERIF / 'replays'
+if os.environ.get('VF_REPO'):
+    # development aid: a run against a modified copy of the repository
+    # (seeded change) must not overwrite the evidence of the real tree
+    EVIDENCE_DIR = Path('/dev/shm/vf-mutant/evidence')
+    REPLAY_DIR = Path('/dev/shm/vf-mutant/replays')
 FINDINGS_FILE = VERIF / 'known_findings.json'
 
 EXIT_OK = 0
@@ -240,7 +245,7 @@ def validate_evidence(ev: dict) -> None:
 
 def write_evidence(ev: dict) -> Path:
     validate_evidence(ev)
-    EVIDENCE_DIR.mkdir(exist_ok=True)
+    EVIDENCE_DIR.mkdir(parents=True, exist_ok=True)
     path = EVIDENCE_DIR / f"{ev['property_id']}.json"
     tmp = path.with_suffix('.json.tmp')
     tmp.write_text(json.dumps(ev, indent=1, sort_keys=True, default=str))
@@ -249,7 +254,7 @@ def write_evidence(ev: dict) -> Path:
 
 
 def write_replay(prop: str, v: Violation) -> Path:
-    REPLAY_DIR.mkdir(exist_ok=True)
+    REPLAY_DIR.mkdir(parents=True, exist_ok=True)
     blob = json.dumps(
         {'property': prop, **v.to_json()}, indent=1, sort_keys=True,
         default=str)
